@@ -8,9 +8,11 @@ mod c18;
 mod c25;
 mod c29;
 mod c20;
+mod c22;
 mod gens;
 mod lang;
 mod vrlrun;
+mod vrlrun_c22;
 mod rng;
 mod sink;
 mod wire;
@@ -32,6 +34,7 @@ const EXECS: &[Exec] = &[
     c25::exec,
     c29::exec,
     c20::exec,
+    c22::exec,
 ];
 
 /// Run one case (`op` + inputs) on the implementation: the first module that recognises the op answers.
@@ -55,6 +58,7 @@ fn generate(prop: &str, sink: &mut sink::Sink, rng: &mut rng::Rng, n: u64) -> bo
         "C25" => c25::generate(sink, rng, n),
         "C29int" => c29::generate(sink, rng, n),
         "C20" => c20::generate(sink, rng, n),
+        "C22" => c22::generate(sink, rng, n),
         _ => return false,
     }
     true
